@@ -35,3 +35,22 @@ func Harness_C16_exact_collinear_order_independent() {
 	vr.Assert("swapping the edges does not change the result", intersectionExact(b0, b1, a0, a1) == x)
 	vr.Reach("end")
 }
+
+// The tie-break used by the stable path for edges of equal length is a consistent order
+// on undirected edges: unchanged by reversing either edge, and antisymmetric.
+func Harness_C16_compare_edges_consistent() {
+	vr.Domain("RUF")
+	a0, a1, b0, b1 := Point{vrVec("a0")}, Point{vrVec("a1")}, Point{vrVec("b0")}, Point{vrVec("b1")}
+	vr.Assume(vr.And(a0 != a1, b0 != b1))
+	// Intersection requires edges that cross at an interior point, so they share no endpoint.
+	// (With a shared smaller endpoint compareEdges answers true in both orders: its last clause
+	// compares b0 with b1 where the C++ original compares a1 with b1 — unreachable for crossing
+	// edges, recorded as observation O4 in DESIGN §9.3.)
+	vr.Assume(vr.And(vr.And(a0 != b0, a0 != b1), vr.And(a1 != b0, a1 != b1)))
+	c := compareEdges(a0, a1, b0, b1)
+	vr.Assert("reversing the first edge does not change the order", compareEdges(a1, a0, b0, b1) == c)
+	vr.Assert("reversing the second edge does not change the order", compareEdges(a0, a1, b1, b0) == c)
+	same := vr.Or(vr.And(a0 == b0, a1 == b1), vr.And(a0 == b1, a1 == b0))
+	vr.Assert("antisymmetric on distinct undirected edges", vr.Implies(!same, compareEdges(b0, b1, a0, a1) == !c))
+	vr.Reach("end")
+}
